@@ -9,4 +9,5 @@ CONSTANTS
   Emit = TRUE
   EmitMod = 29
 INVARIANT DenotationTotal
+INVARIANT StartsAgree
 CONSTRAINT EmitScn
